@@ -54,7 +54,10 @@ func (c12) Cases(tier string, seed uint64) []fw.Case {
 	for i := range cs {
 		cs[i] = fw.Case{Seed: fw.CaseSeed(seed, "C12", i), Name: fmt.Sprintf("run%d", i), Params: map[string]any{
 			"goroutines": []int{2, 8}[i%2], "shards": 1 + i%3, "collections": 1 + (i/3)%2, "deleters": 1 + (i/6)%2,
-			"timeout": []int{0, 0, 1}[i%3], "backups": i%4 == 1, "ops": ops}}
+			"timeout": []int{0, 0, 1}[i%3], "backups": i%4 == 1, "ops": ops,
+			// the cache manager is shared by all shards of a node: unlimited, or so small that the
+			// index caches of the shards evict each other while requests, unloads and deletions run
+			"cache_limit": []int{-1, 3000, -1, 20000}[i%4]}}
 	}
 	return cs
 }
@@ -71,7 +74,7 @@ func (c12) RunCase(c fw.Case, env *fw.Env) *fw.CaseResult {
 	res := fw.NewResult()
 	rng := rand.New(rand.NewPCG(c.Seed, 12))
 	root := filepath.Join(env.Dir, "root")
-	cfg := cluster.ShardManagerConfig{RootDir: root, ShardTimeout: c.Int("timeout", 0), MaxCacheSize: -1}
+	cfg := cluster.ShardManagerConfig{RootDir: root, ShardTimeout: c.Int("timeout", 0), MaxCacheSize: int64(c.Int("cache_limit", -1))}
 	sm := cluster.NewShardManager(cfg)
 	schema := models.IndexSchema{"vec": gen.Vamana(4, models.DistanceEuclidean, 25, 32, 1.2, nil), "n": gen.Int()}
 	nCol := c.Int("collections", 1)
